@@ -61,6 +61,14 @@ def _params(fd, skip_self):
 
 def _bind(fd, call, skip_self):
     """param -> argument AST, or None if the call cannot be bound simply"""
+    if isinstance(skip_self, tuple) and skip_self[0] == "recv":
+        m = _bind(fd, call, True)
+        if m is None:
+            return None
+        # the receiver must not be rebound inside the helper (it is a plain name in the caller)
+        m = dict(m)
+        m["self"] = ast.Name(id=skip_self[1], ctx=ast.Load())
+        return m
     if fd.args.vararg or fd.args.kwarg or fd.args.kwonlyargs:
         return None
     ps = _params(fd, skip_self)
@@ -101,7 +109,95 @@ def _expr_form(fd):
     b = _body(fd)
     if len(b) == 1 and isinstance(b[0], ast.Return) and b[0].value is not None:
         return b[0].value
-    return _expr_of_block(b, {}, 0)
+    e = _expr_of_block(b, {}, 0)
+    if e is None:
+        e = _memo_form(fd)
+    return e
+
+
+def _memo_form(fd):
+    """A memoising helper whose cache key covers every input of the cached computation is observationally the
+    computation itself:
+
+        [cache = self.A]
+        if <cache> is not None and <cache>[i] is|== p_i and ... : return <cache>[k]
+        v = CALL(...)                       # mentions only the keyed parameters p_i (no other state)
+        self.A = (p_i ..., v)               # v stored at index k, every p_i at its index i
+        return v
+
+    Returns CALL (an expression over the helper's parameters) when the body has exactly this form and the key is
+    complete; None otherwise (the helper then stays opaque to the rules, which report what they cannot match)."""
+    b = [st for st in _body(fd) if not (isinstance(st, ast.Expr) and isinstance(st.value, ast.Constant))]
+    ps = [a.arg for a in fd.args.args]
+    if not ps or ps[0] != "self" or fd.args.vararg or fd.args.kwarg:
+        return None
+    alias = None
+    if b and isinstance(b[0], ast.Assign) and len(b[0].targets) == 1 and isinstance(b[0].targets[0], ast.Name) \
+            and isinstance(b[0].value, ast.Attribute) and isinstance(b[0].value.value, ast.Name) and b[0].value.value.id == "self":
+        alias = (b[0].targets[0].id, b[0].value.attr)
+        b = b[1:]
+    if len(b) != 4:
+        return None
+    iff, comp, store, ret = b
+    if not (isinstance(iff, ast.If) and not iff.orelse and len(iff.body) == 1 and isinstance(iff.body[0], ast.Return)):
+        return None
+    if not (isinstance(comp, ast.Assign) and len(comp.targets) == 1 and isinstance(comp.targets[0], ast.Name)):
+        return None
+    v = comp.targets[0].id
+    call = comp.value
+    if not (isinstance(ret, ast.Return) and isinstance(ret.value, ast.Name) and ret.value.id == v):
+        return None
+    if not (isinstance(store, ast.Assign) and len(store.targets) == 1 and isinstance(store.targets[0], ast.Attribute)
+            and isinstance(store.targets[0].value, ast.Name) and store.targets[0].value.id == "self"
+            and isinstance(store.value, ast.Tuple)):
+        return None
+    attr = store.targets[0].attr
+    if alias is not None and alias[1] != attr:
+        return None
+
+    def is_cache(e):
+        if alias is not None and isinstance(e, ast.Name) and e.id == alias[0]:
+            return True
+        return isinstance(e, ast.Attribute) and isinstance(e.value, ast.Name) and e.value.id == "self" and e.attr == attr
+
+    def cache_idx(e):
+        if isinstance(e, ast.Subscript) and is_cache(e.value) and isinstance(e.slice, ast.Constant) \
+                and isinstance(e.slice.value, int):
+            return e.slice.value
+        return None
+    elts = store.value.elts
+    vidx = [i for i, e in enumerate(elts) if isinstance(e, ast.Name) and e.id == v]
+    if len(vidx) != 1 or cache_idx(iff.body[0].value) != vidx[0]:
+        return None
+    keyed = {}
+    conj = iff.test.values if isinstance(iff.test, ast.BoolOp) and isinstance(iff.test.op, ast.And) else [iff.test]
+    for c in conj:
+        if not (isinstance(c, ast.Compare) and len(c.ops) == 1):
+            return None
+        l, op, r = c.left, c.ops[0], c.comparators[0]
+        if is_cache(l) and isinstance(op, ast.IsNot) and isinstance(r, ast.Constant) and r.value is None:
+            continue
+        if cache_idx(l) is None and cache_idx(r) is not None:
+            l, r = r, l
+        i = cache_idx(l)
+        if i is None or not isinstance(op, (ast.Is, ast.Eq)) or not (isinstance(r, ast.Name) and r.id in ps[1:]):
+            return None
+        if not (i < len(elts) and isinstance(elts[i], ast.Name) and elts[i].id == r.id):
+            return None             # the stored key component is not the parameter it is compared with
+        keyed[r.id] = i
+    # every input of the computation is a keyed parameter; no other state, no local
+    for n in ast.walk(call):
+        if isinstance(n, ast.Name) and isinstance(n.ctx, ast.Load):
+            if n.id not in keyed:
+                par = getattr(n, "_parent", None)
+                return None
+    if not isinstance(call, ast.Call) or any(isinstance(n, (ast.Yield, ast.Await, ast.Lambda)) for n in ast.walk(call)):
+        return None
+    # parameters are not rebound
+    for n in ast.walk(fd):
+        if isinstance(n, ast.Name) and isinstance(n.ctx, (ast.Store, ast.Del)) and n.id in ps:
+            return None
+    return call
 
 
 def _uses(node, name):
@@ -165,14 +261,74 @@ def _stmt_form(fd):
     return b
 
 
+_BUILTIN_OBJS = {"bytearray", "bytes", "int", "str", "list", "tuple", "dict", "set", "float", "bool", "len", "sorted"}
+
+
+def _decide(test):
+    """truth of a test made only of constants (after parameter substitution), else None"""
+    if isinstance(test, ast.Constant):
+        return bool(test.value)
+    if isinstance(test, ast.UnaryOp) and isinstance(test.op, ast.Not):
+        v = _decide(test.operand)
+        return None if v is None else (not v)
+    if isinstance(test, ast.Compare) and len(test.ops) == 1:
+        a, op, b = test.left, test.ops[0], test.comparators[0]
+
+        def val(e):
+            if isinstance(e, ast.Constant):
+                return ("c", e.value)
+            if isinstance(e, ast.Name) and e.id in _BUILTIN_OBJS:
+                return ("obj", e.id)
+            return None
+        va, vb = val(a), val(b)
+        if va is None or vb is None:
+            return None
+        if isinstance(op, (ast.Is, ast.Eq)):
+            if va[0] == vb[0] == "c":
+                return (va[1] is vb[1]) if isinstance(op, ast.Is) and (va[1] is None or vb[1] is None or isinstance(va[1], bool)) \
+                    else (va[1] == vb[1] if isinstance(op, ast.Eq) else None)
+            if {va[0], vb[0]} == {"c", "obj"}:
+                return False
+            return None
+        if isinstance(op, (ast.IsNot, ast.NotEq)):
+            r = _decide(ast.Compare(left=a, ops=[ast.Is() if isinstance(op, ast.IsNot) else ast.Eq()], comparators=[b]))
+            return None if r is None else (not r)
+    return None
+
+
+class _Simplify(ast.NodeTransformer):
+    """drops branches whose condition became constant by parameter substitution"""
+
+    def visit_IfExp(self, n):
+        self.generic_visit(n)
+        v = _decide(n.test)
+        if v is None:
+            return n
+        return n.body if v else n.orelse
+
+    def visit_If(self, n):
+        self.generic_visit(n)
+        v = _decide(n.test)
+        if v is None:
+            return n
+        keep = n.body if v else n.orelse
+        return keep if keep else ast.Pass()
+
+
 class Inliner:
-    def __init__(self, modname, tree):
+    def __init__(self, modname, tree, path=None):
+        self.path = path
         self.base = baseline().get(modname)
         self.tree = tree
         self.count = 0
         # candidates: new module-level functions and new methods (by class)
         self.funcs = {}
         self.methods = {}
+        self.modnames = set()
+        for st in tree.body:
+            if isinstance(st, ast.Import):
+                for a in st.names:
+                    self.modnames.add((a.asname or a.name).split(".")[0])
         if self.base is None:
             return
         for st in tree.body:
@@ -191,6 +347,16 @@ class Inliner:
         if isinstance(f, ast.Name) and f.id in self.funcs:
             return self.funcs[f.id], False
         if isinstance(f, ast.Attribute) and f.attr in self.methods and len(self.methods[f.attr]) == 1:
+            if isinstance(f.value, ast.Name) and f.value.id not in ("self", "cls") and f.value.id != self.methods[f.attr][0][0] \
+                    and f.value.id not in self.modnames:
+                # `obj.helper(...)` with a plain local as receiver: the helper's `self` is that object
+                fd = self.methods[f.attr][0][1]
+                if any(isinstance(d, ast.Name) and d.id in ("staticmethod", "classmethod") for d in fd.decorator_list):
+                    return None
+                ps = [a.arg for a in fd.args.args]
+                if not ps or ps[0] != "self":
+                    return None
+                return fd, ("recv", f.value.id)
             if isinstance(f.value, ast.Name) and (f.value.id in ("self", "cls") or f.value.id == self.methods[f.attr][0][0]):
                 fd = self.methods[f.attr][0][1]
                 static = any(isinstance(d, ast.Name) and d.id == "staticmethod" for d in fd.decorator_list)
@@ -210,8 +376,88 @@ class Inliner:
                 self.inline_in(fd)
             if self.count == before:
                 break
+        self.drop_dead_helpers()
+        if self.count:
+            for fd in [n for n in ast.walk(self.tree) if isinstance(n, ast.FunctionDef)]:
+                if getattr(fd, "_inlined_into", False):
+                    _Simplify().visit(fd)
+        if self.base is not None:
+            for fd in [n for n in ast.walk(self.tree) if isinstance(n, ast.FunctionDef)]:
+                self.propagate_attr_aliases(fd)
         ast.fix_missing_locations(self.tree)
         return self.count
+
+    def propagate_attr_aliases(self, fd):
+        """`x = self.a` (x assigned once, a plain attribute read of self, the attribute not stored in this function,
+        x not a name of the pinned version of this function's module) is a read-only alias introduced by a later
+        edit: its uses are replaced by `self.a`, so guards and calls are seen in the shape the rules were written for.
+        (Assumes no callee rebinds the attribute between the alias and its uses - the same assumption the rules'
+        own single-definition substitution makes.)"""
+        cands = {}
+        stores = {}
+        for n in ast.walk(fd):
+            if isinstance(n, ast.Name) and isinstance(n.ctx, (ast.Store, ast.Del)):
+                stores[n.id] = stores.get(n.id, 0) + 1
+        params = {a.arg for a in fd.args.args + fd.args.kwonlyargs}
+        for st in fd.body:
+            if isinstance(st, ast.Assign) and len(st.targets) == 1 and isinstance(st.targets[0], ast.Name) \
+                    and isinstance(st.value, ast.Attribute) and isinstance(st.value.value, ast.Name) \
+                    and st.value.value.id == "self":
+                nm = st.targets[0].id
+                if stores.get(nm) == 1 and nm not in params and nm not in (self.base or ()):
+                    attr = st.value.attr
+                    rebound = any(isinstance(x, ast.Attribute) and x.attr == attr and isinstance(x.ctx, (ast.Store, ast.Del))
+                                  for x in ast.walk(fd))
+                    if not rebound:
+                        cands[nm] = st
+        if not cands:
+            return
+        m = {nm: st.value for nm, st in cands.items()}
+        for nm, st in cands.items():
+            fd.body.remove(st)
+        if not fd.body:
+            fd.body.append(ast.Pass())
+        _Sub(m).visit(fd)
+        self.count += len(cands)
+
+    def drop_dead_helpers(self):
+        """A new helper all of whose uses were inlined is removed from the analysed tree: its body now lives in the
+        callers, and whole-module scans (who-may-write, who-may-call) must not see it a second time under the
+        helper's name. It is kept when any reference remains in this module or in a sibling module."""
+        import re
+        if self.count == 0:
+            return
+        sib = ""
+        if self.path:
+            d = os.path.dirname(self.path)
+            try:
+                for fn in os.listdir(d):
+                    if fn.endswith(".py") and os.path.join(d, fn) != self.path:
+                        with open(os.path.join(d, fn), "r", encoding="utf-8", errors="replace") as f:
+                            sib += f.read() + "\n"
+            except OSError:
+                sib = ""
+        cands = [(None, fd) for fd in self.funcs.values()]
+        for lst in self.methods.values():
+            cands += lst
+        for owner, fd in cands:
+            name = fd.name
+            refs = 0
+            for n in ast.walk(self.tree):
+                if isinstance(n, ast.Attribute) and n.attr == name:
+                    refs += 1
+                elif isinstance(n, ast.Name) and n.id == name:
+                    refs += 1
+                elif isinstance(n, ast.Constant) and n.value == name:
+                    refs += 1          # getattr(obj, "name")
+            if refs or re.search(r"\b%s\b" % re.escape(name), sib):
+                continue
+            for n in ast.walk(self.tree):
+                body = getattr(n, "body", None)
+                if isinstance(body, list) and fd in body:
+                    body.remove(fd)
+                    if not body:
+                        body.append(ast.Pass())
 
     def inline_in(self, fd):
         me = self
@@ -230,6 +476,7 @@ class Inliner:
                 if m is None:
                     return c
                 me.count += 1
+                fd._inlined_into = True
                 return ast.copy_location(_Sub(m).visit(_clone(e)), c)
 
             def visit_FunctionDef(self, n):
@@ -256,8 +503,26 @@ class Inliner:
                         m = _bind(h, st.value, skip) if b is not None else None
                         if b is not None and m is not None:
                             self.count += 1
+                            fd._inlined_into = True
                             for s in b:
                                 out.append(_Sub(m).visit(_clone(s)))
+                            continue
+                if isinstance(st, ast.Return) and isinstance(st.value, ast.Call):
+                    # `return helper(...)`: executing the helper's body in place, its returns become the caller's
+                    t = self.target(st.value)
+                    if t is not None and t[0] is not fd:
+                        h, skip = t
+                        hb = _body(h)
+                        bad = any(isinstance(n, (ast.Yield, ast.YieldFrom, ast.Global, ast.Nonlocal, ast.FunctionDef, ast.Lambda))
+                                  for s_ in hb for n in ast.walk(s_))
+                        m = _bind(h, st.value, skip) if not bad else None
+                        if m is not None:
+                            self.count += 1
+                            fd._inlined_into = True
+                            for s_ in hb:
+                                out.append(_Sub(m).visit(_clone(s_)))
+                            if not (hb and isinstance(hb[-1], (ast.Return, ast.Raise))):
+                                out.append(ast.Return(value=ast.Constant(value=None)))
                             continue
                 out.append(st)
             return out if (out or not stmts) else [ast.Pass()]
